@@ -24,8 +24,14 @@ git apply $CTX "$PATCH"
 trap 'cd /repo && git checkout -q -- . ' EXIT INT TERM
 for ID in "$@"; do
     # Evidence of a run on a changed tree must not replace the committed evidence
-    OUT="$(cd /verif && VERIF_EVIDENCE_NAME="$ID.patched-tree.json" timeout 1500 ./check "$ID" quick 2>&1)"
+    # The dev-profile batch first; the release-profile sample only if that found nothing (it
+    # costs a release build of the changed tree)
+    OUT="$(cd /verif && VERIF_NO_RELEASE_SAMPLE=1 VERIF_EVIDENCE_NAME="$ID.patched-tree.json" timeout 1500 ./check "$ID" quick 2>&1)"
     CODE=$?
+    if [ "$CODE" = 0 ] && [ "${VERIF_NO_RELEASE_SAMPLE:-}" != 1 ]; then
+        OUT="$(cd /verif && VERIF_EVIDENCE_NAME="$ID.patched-tree.json" timeout 1500 ./check "$ID" quick 2>&1)"
+        CODE=$?
+    fi
     FIRST="$(printf '%s\n' "$OUT" | grep -m1 '^VIOLATION' | cut -c1-260)"
     N="$(printf '%s\n' "$OUT" | grep -c '^VIOLATION')"
     [ -z "$FIRST" ] && FIRST="$(printf '%s\n' "$OUT" | grep -m1 -E '^(harness|summary)' | cut -c1-200)"
